@@ -36,6 +36,9 @@ def run(ctx, escalated=False):
             shutil.rmtree(os.path.join(ctx.scratch, "cond"), ignore_errors=True)
     import scripted as S
     S.install()
+    # throttled scenarios with the real Slurm / LSF `check_jobs` in the loop: a job the scheduler's
+    # listing leaves out for a poll is still live and still occupies its slot
+    cases += execprop.via_cases(ctx, "C03", 300 if quick else 6000, faulty=False, throttled=True)
     cases = cases + extra
     diffs = compare([c for c in cases if c.lines])
     account(ctx, extra)
